@@ -2,9 +2,11 @@ import PyttbModel.Driver.C17
 import PyttbModel.Driver.C01
 import PyttbModel.Driver.C16
 import PyttbModel.Driver.C03
+import PyttbModel.Driver.C13
+import PyttbModel.Driver.C12
 open Lean Pyttb Pyttb.Codec Pyttb.Driver
 
-def allOps : List (String × Op) := ops17 ++ ops07 ++ ops01 ++ ops16 ++ ops03
+def allOps : List (String × Op) := ops17 ++ ops07 ++ ops01 ++ ops16 ++ ops03 ++ ops13 ++ ops12
 
 def handle (line : String) : String :=
   match Json.parse line with
